@@ -128,7 +128,10 @@ int main(int argc, char** argv) {
     if (perm_ok) { std::vector<int> seen(g.n, 0); for (int j = 0; j < g.n; ++j) { int p = pd.vperm_[j]; if (p < 0 || p >= g.n || seen[p]++ || pd.vperm_inv_[p] != j) perm_ok = false; } }
     if (!perm_ok) fail("reported-permutation-is-not-a-bijection");
     // (2) NLSolver path writes the same files
-    mp::NLSolver solver(&utils); solver.SetFileStub(stub); solver.SetNLOptions(opts);
+    // half of the cases reuse one long-lived NLSolver for model after model (different sizes): nothing of an earlier model may survive
+    static mp::NLUtils shared_utils; static mp::NLSolver shared_solver(&shared_utils);
+    mp::NLSolver fresh_solver(&utils); bool reuse = r.chance(1, 2);
+    mp::NLSolver& solver = reuse ? shared_solver : fresh_solver; solver.SetFileStub(stub); solver.SetNLOptions(opts);
     const mp::NLModel& cmdl = mdl; if (!solver.LoadModel(cmdl)) fail("LoadModel-failed", solver.GetErrorMessage());
     long events = 0; int nonlin_int = 0;
     if (perm_ok && bad.empty()) {
@@ -280,7 +283,7 @@ int main(int argc, char** argv) {
       NLW2_DestroyNLSolver_C(&cs); NLW2_DestroyNLModel_C(&cm);
       for (const char* ext : {".nl", ".col", ".row", ".sol"}) unlink((stub2 + ext).c_str());
     }
-    vf::J j; j.i("case", c).b("c_api", c_api).i("n", g.n).i("m", g.m).s("qshape", g.qshape).i("qfmt", g.qfmt).b("text", text).b("names", g.names).i("nsuf", (long long)g.sufs.size()).i("events", events).s("detail", detail.substr(0, 500));
+    vf::J j; j.i("case", c).b("c_api", c_api).b("solver_reused", reuse).i("n", g.n).i("m", g.m).s("qshape", g.qshape).i("qfmt", g.qfmt).b("text", text).b("names", g.names).i("nsuf", (long long)g.sufs.size()).i("events", events).s("detail", detail.substr(0, 500));
     std::sort(bad.begin(), bad.end()); bad.erase(std::unique(bad.begin(), bad.end()), bad.end());
     std::string bl = "["; for (size_t i = 0; i < bad.size(); ++i) { if (i) bl += ","; bl += "\"" + vf::jesc(bad[i]) + "\""; } bl += "]";
     j.raw("bad", bl);
